@@ -330,12 +330,182 @@ let run_r2m (sx : string) =
 let fmt_pairs (l : (n * n) list) =
   String.concat "" (List.map (fun (a, b) -> Printf.sprintf "[%d %d]" (int_of_n a) (int_of_n b)) l)
 
+(* ---------- token trees for the regex parser ---------- *)
+(* tokens separated by spaces: c<cp> s<cps> i<name> $ _ | * + ? # - ( ) [ ] o<k> *)
+let parse_toks (s : string) : tok list =
+  let words = List.filter (fun x -> x <> "") (String.split_on_char ' ' s) in
+  let rec go ws closer : tok list * string list =
+    match ws with
+    | [] -> if closer = "" then ([], []) else failwith "unclosed group"
+    | w :: rest ->
+        if w = closer then ([], rest)
+        else if w = ")" || w = "]" then failwith "unbalanced"
+        else
+          let (t, rest') =
+            match w with
+            | "(" -> let (inner, r) = go rest ")" in (TParen inner, r)
+            | "[" -> let (inner, r) = go rest "]" in (TBracket inner, r)
+            | "$" -> (TDollar, rest) | "_" -> (TUnderscore, rest) | "|" -> (TOr, rest)
+            | "*" -> (TStar, rest) | "+" -> (TPlus, rest) | "?" -> (TQuestion, rest)
+            | "#" -> (TPound, rest) | "-" -> (TMinus, rest)
+            | _ ->
+                let body = String.sub w 1 (String.length w - 1) in
+                (match w.[0] with
+                 | 'c' -> (TChar (n_of_int (int_of_string body)), rest)
+                 | 's' -> (TStr (cps_of_string body), rest)
+                 | 'i' -> (TIdent (name_of_string body), rest)
+                 | 'o' -> (TOther (n_of_int (int_of_string body)), rest)
+                 | _ -> failwith ("bad token " ^ w)) in
+          let (ts, r) = go rest' closer in
+          (t :: ts, r) in
+  fst (go words "")
+
+let rec sexp_of_regex (r : regex) : string =
+  match r with
+  | RBuiltin n -> "(builtin " ^ string_of_name n ^ ")"
+  | RVar n -> "(var " ^ string_of_name n ^ ")"
+  | RChar c -> Printf.sprintf "(char %d)" (int_of_n c)
+  | RString s -> "(str " ^ (match s with [] -> "-" | _ -> String.concat "," (List.map (fun c -> string_of_int (int_of_n c)) s)) ^ ")"
+  | RCharSet l -> "(set" ^ String.concat "" (List.map (function
+        | CChar a -> Printf.sprintf " %d" (int_of_n a)
+        | CRange (a, b) -> Printf.sprintf " %d-%d" (int_of_n a) (int_of_n b)) l) ^ ")"
+  | RStar a -> "(star " ^ sexp_of_regex a ^ ")"
+  | RPlus a -> "(plus " ^ sexp_of_regex a ^ ")"
+  | ROpt a -> "(opt " ^ sexp_of_regex a ^ ")"
+  | RCat (a, b) -> "(cat " ^ sexp_of_regex a ^ " " ^ sexp_of_regex b ^ ")"
+  | ROr (a, b) -> "(or " ^ sexp_of_regex a ^ " " ^ sexp_of_regex b ^ ")"
+  | RDiff (a, b) -> "(diff " ^ sexp_of_regex a ^ " " ^ sexp_of_regex b ^ ")"
+  | RAny -> "(any)"
+  | REoi -> "(eoi)"
+
+let run_toks (s : string) =
+  match (try Some (parse_toks s) with Failure _ -> None) with
+  | None -> pr "ERR\n"
+  | Some ts ->
+      (match parse_regex ts with
+       | Some (r, []) -> pr "OK %s\n" (sexp_of_regex r)
+       | _ -> pr "ERR\n")
+
+(* ---------- certificates on dumped automata (implementation's or model's own dump) ---------- *)
+(* input: the lines of a dump between CHECKDUMP <id> and ENDCHECK. For every rule set / context
+   block: nfa_targets_ok_b, nfa_ranges_wf_b, dfa_wf_b, dfa_closed_b; for the BACKTRACK DFA:
+   flags_sound_b. The soundness theorems (ClosedChecker.dfa_closed_b_sound, props/C02.v) then
+   apply to exactly these automata. *)
+let nats_of s = if s = "-" then [] else List.map (fun x -> nat_of_int (int_of_string x)) (String.split_on_char ',' s)
+
+let parse_acc_list (s : string) : accval list =
+  if s = "-" then [] else
+  List.map (fun item ->
+    let (v, ctx) = match String.index_opt item '@' with
+      | Some i -> (String.sub item 0 i, Some (nat_of_int (int_of_string (String.sub item (i + 1) (String.length item - i - 1)))))
+      | None -> (item, None) in
+    ((if v = "u" then O else nat_of_int (int_of_string v)), ctx)) (String.split_on_char ',' s)
+
+let check_dump (id : string) (lines : string list) =
+  let arr = Array.of_list lines in
+  let n = Array.length arr in
+  let i = ref 0 in
+  let words s = List.filter (fun x -> x <> "") (String.split_on_char ' ' s) in
+  let parse_nfa () : nfa =
+    let cnt = int_of_string (List.nth (words arr.(!i)) 1) in
+    incr i;
+    let states = ref [] in
+    let cur = ref None in
+    let flush () = match !cur with Some st -> states := st :: !states | None -> () in
+    let continue = ref true in
+    while !continue && !i < n do
+      let w = words arr.(!i) in
+      (match w with
+       | "S" :: _ :: v :: ctx :: _ ->
+           flush ();
+           let acc = if v = "-" then None else
+             Some ((if v = "u" then O else nat_of_int (int_of_string v)),
+                   (if ctx = "-" then None else Some (nat_of_int (int_of_string ctx)))) in
+           cur := Some { n_chars = []; n_ranges = []; n_eps = []; n_any = []; n_eoi = []; n_acc = acc };
+           incr i
+       | ["e"; t] -> (match !cur with Some st -> cur := Some { st with n_eps = nats_of t } | None -> ()); incr i
+       | ["c"; c; t] -> (match !cur with Some st -> cur := Some { st with n_chars = st.n_chars @ [(n_of_int (int_of_string c), nats_of t)] } | None -> ()); incr i
+       | ["r"; lo; hi; t] -> (match !cur with Some st -> cur := Some { st with n_ranges = st.n_ranges @ [{ r_lo = n_of_int (int_of_string lo); r_hi = n_of_int (int_of_string hi); r_val = nats_of t }] } | None -> ()); incr i
+       | ["a"; t] -> (match !cur with Some st -> cur := Some { st with n_any = nats_of t } | None -> ()); incr i
+       | ["z"; t] -> (match !cur with Some st -> cur := Some { st with n_eoi = nats_of t } | None -> ()); incr i
+       | _ -> continue := false)
+    done;
+    flush ();
+    let res = List.rev !states in
+    if List.length res <> cnt then failwith "nfa count";
+    res in
+  let parse_map () : state_map =
+    let cnt = int_of_string (List.nth (words arr.(!i)) 1) in
+    incr i;
+    let m = ref [] in
+    for _ = 1 to cnt do
+      (match words arr.(!i) with
+       | ["M"; d; s] -> m := (nats_of s, nat_of_int (int_of_string d)) :: !m
+       | _ -> failwith "map line");
+      incr i
+    done;
+    List.rev !m in
+  let tgt s = nat_of_int (int_of_string (String.sub s 1 (String.length s - 1))) in
+  let parse_dfa () : nat dfa =
+    let cnt = int_of_string (List.nth (words arr.(!i)) 1) in
+    incr i;
+    let states = ref [] in
+    let cur = ref None in
+    let flush () = match !cur with Some st -> states := st :: !states | None -> () in
+    let continue = ref true in
+    while !continue && !i < n do
+      let w = words arr.(!i) in
+      (match w with
+       | "S" :: _ :: kvs ->
+           flush ();
+           let kv k = let p = k ^ "=" in
+             let x = List.find (fun s -> String.length s >= String.length p && String.sub s 0 (String.length p) = p) kvs in
+             String.sub x (String.length p) (String.length x - String.length p) in
+           cur := Some { d_init = (kv "init" = "1"); d_chars = []; d_ranges = []; d_any = None; d_eoi = None;
+                         d_acc = parse_acc_list (kv "acc"); d_preds = nats_of (kv "preds"); d_bt = (kv "bt" = "1") };
+           incr i
+       | ["c"; c; t] -> (match !cur with Some st -> cur := Some { st with d_chars = st.d_chars @ [(n_of_int (int_of_string c), tgt t)] } | None -> ()); incr i
+       | ["r"; lo; hi; t] -> (match !cur with Some st -> cur := Some { st with d_ranges = st.d_ranges @ [{ r_lo = n_of_int (int_of_string lo); r_hi = n_of_int (int_of_string hi); r_val = tgt t }] } | None -> ()); incr i
+       | ["a"; t] -> (match !cur with Some st -> cur := Some { st with d_any = Some (tgt t) } | None -> ()); incr i
+       | ["z"; t] -> (match !cur with Some st -> cur := Some { st with d_eoi = Some (tgt t) } | None -> ()); incr i
+       | _ -> continue := false)
+    done;
+    flush ();
+    let res = List.rev !states in
+    if List.length res <> cnt then failwith "dfa count";
+    res in
+  pr "CHECKED %s\n" id;
+  let b x = if x then 1 else 0 in
+  (try
+    while !i < n do
+      let w = words arr.(!i) in
+      (match w with
+       | ("RSBEGIN" | "CTXBEGIN") :: _ ->
+           let kind = List.hd w in
+           incr i;
+           let nfa = parse_nfa () in
+           let m = parse_map () in
+           let d = parse_dfa () in
+           pr "CERT %s targets=%d nranges=%d dranges=%d closed=%d states=%d\n" kind
+             (b (nfa_targets_ok_b nfa)) (b (nfa_ranges_wf_b nfa)) (b (dfa_wf_b d)) (b (dfa_closed_b nfa d m))
+             (List.length d)
+       | "BACKTRACK" :: _ ->
+           incr i;
+           let d = parse_dfa () in
+           pr "CERT FLAGS sound=%d states=%d\n" (b (flags_sound_b d)) (List.length d)
+       | "SIMPLIFIED" :: _ -> i := n
+       | _ -> incr i)
+    done
+  with Failure m -> pr "CERT ERROR %s\n" m | Not_found -> pr "CERT ERROR notfound\n" | Invalid_argument m -> pr "CERT ERROR %s\n" m);
+  pr "ENDCHECKED\n"
+
 let () =
   let artifacts = ref true in
   let file = ref "" in
   Array.iteri (fun i a -> if i > 0 then (if a = "--no-artifacts" then artifacts := false else file := a)) Sys.argv;
   let ic = if !file = "" then stdin else open_in !file in
   let cur = ref None in
+  let chk = ref None in
   (try
     while true do
       let line = input_line ic in
@@ -347,11 +517,19 @@ let () =
              with Failure m -> pr "DEF %s\nDRIVER-ERROR %s\nENDDEF\n" id m);
             cur := None
           end else cur := Some (id, line :: lines)
+      | None when (match !chk with Some _ -> true | None -> false) ->
+          (match !chk with
+           | Some (id, lines) ->
+               if cmd = "ENDCHECK" then (check_dump id (List.rev lines); chk := None)
+               else chk := Some (id, line :: lines)
+           | None -> ())
       | None ->
           (match cmd with
+           | "CHECKDUMP" -> chk := Some (rest, [])
            | "DEF" -> cur := Some (rest, [])
            | "RM" -> run_rm rest
            | "R2M" -> run_r2m rest
+           | "TOKS" -> run_toks rest
            | "GEN" ->
                let bounds = List.filter (fun x -> x <> "") (String.split_on_char ' ' rest)
                             |> List.map (fun x -> n_of_int (int_of_string x)) in
